@@ -326,15 +326,18 @@ package types
 //@   ensures len(coins) == 0 ==> cv(result) == cvZero() && validCoins(result)
 
 // ---- C42: transaction indexer ------------------------------------------------------------
+// upper bound of a prefix range: the prefix with its last component replaced by the sortable
+// encoding of the LARGEST int64 - so the range covers every height / position ever written
+//@ ghost lastElenInt int
 //@ func endKey
-//@   trusted string formatting (bytes.Split/Join, ELEN encoding of MaxInt64): the upper bound of the prefix range
-//@   pure_fn
-//@   ensures result != nil
+//@   props C42
+//@   modifies lastElenInt
+//@   ensures [covers-every-height] result != nil && lastElenInt == 9223372036854775807
 
 // the requested direction selects the direction of the database iterator over the prefix range
 //@ func PrefixIterator
 //@   props C42
-//@   modifies itPos, itN, itKey, itVal, itStore, itLo, itHi, itHiNil, itRev, lastOpened
+//@   modifies itPos, itN, itKey, itVal, itStore, itLo, itHi, itHiNil, itRev, lastOpened, lastElenInt
 //@   ensures [asc-forward] order == "asc" && result1 == nil ==> result0 != nil && !itRev[result0] && itLo[result0] == bytes(prefix) && itStore[result0] == db && lastOpened == result0 && itPos[result0] == 0 && itN[result0] >= 0
 //@   ensures [desc-reverse] order == "desc" && result1 == nil ==> result0 != nil && itRev[result0] && itLo[result0] == bytes(prefix) && itStore[result0] == db && lastOpened == result0 && itPos[result0] == 0 && itN[result0] >= 0
 //@   ensures [other-error] order != "asc" && order != "desc" ==> result1 != nil && result0 == nil
